@@ -62,6 +62,7 @@ struct ItemResult {
     hidden_bits: u64,
     sample: Option<serde_json::Value>,
     done: bool,
+    gave_up: bool,
 }
 
 #[inline]
@@ -346,6 +347,12 @@ fn sweep_item(c: &Ctx, cfg: &SweepCfg, start: &Instant, stop: &AtomicBool) -> It
                         r.violations.push(Violation::new(&what, ms, Some(f), trace, expect_value(e), format!("{g:#x}")));
                     }
                 }
+                if r.vcount >= 64 {
+                    // the verdict for this (machine, field) is settled; do not spend the budget enumerating more of the same
+                    r.gave_up = true;
+                    r.distinct = seen.len() as u64;
+                    return r;
+                }
                 if r.sample.is_none() && c.do_put && f.writable && !vals.is_empty() {
                     let v = vals[vals.len() / 2];
                     r.sample = Some(serde_json::json!({
@@ -497,6 +504,9 @@ pub fn sweep(machines: &[(&dyn Machine, &MachineSpec)], cfg: &SweepCfg) -> Repor
             rep.exhaustive = false;
             continue;
         };
+        if r.gave_up {
+            rep.notes.push(format!("{} field {}: stopped after {} violations", ms.name, f.name, r.vcount));
+        }
         if !r.done {
             rep.exhaustive = false;
         } else {
